@@ -12,6 +12,7 @@ Unit syntax: ordinary Verus text, copied verbatim, interleaved with directives:
      //@attrs                     keep the item's attributes/doc comments (default: dropped)
      //@sub <Rk> <count> "<from>" => "<to>"      literal rewrite, must match exactly <count> times
      //@resub <Rk> <count> /<regex>/ => "<to>"   regex rewrite, same
+     //@altsub / //@altresub ...    alternative spelling for the rule just before it: tried only if that one matched nothing
      //@assert_exec               R3 variant: `assert!(c)` => `{ let __cond = c; assert(__cond) }` (c evaluated in exec mode)
      //@noauto                    do not apply the automatic rules (R2, R3)
      //@sigonly                   emit only the signature + spec, terminated by ';' (trait methods)
@@ -403,14 +404,17 @@ def weave(unit_path, repo, verif_root, vacuity=False):
                     opts["assumed_from"] = d[8:].strip()
                 elif d.startswith("hoist "):
                     opts["hoist"].append(d[6:].strip())
-                elif d.startswith("sub ") or d.startswith("resub "):
+                elif d.startswith("sub ") or d.startswith("resub ") or d.startswith("altsub ") or d.startswith("altresub "):
+                    is_alt = d.startswith("alt")
+                    if is_alt:
+                        d = d[3:]
                     mt = re.match(r'(re)?sub\s+(\S+)\s+(\d+|\+|\*)\s+(".*?"|/.*?/)\s+=>\s+"(.*)"\s*$', d)
                     if not mt:
                         raise LostAnchor("%s:%d: bad sub directive" % (unit_path, i))
                     frm = mt.group(4)[1:-1]
                     to = mt.group(5).replace("\\n", "\n").replace('\\"', '"')
                     frm = frm.replace('\\"', '"') if not mt.group(1) else frm
-                    opts["subs"].append((bool(mt.group(1)), mt.group(2), mt.group(3), frm, to))
+                    opts["subs"].append((bool(mt.group(1)), mt.group(2), mt.group(3), frm, to, is_alt))
                 elif d == "spec":
                     blk, i = _read_block(lines, i)
                     opts["spec"] += blk
@@ -504,7 +508,18 @@ def _do_extract_impl(repo, relfile, selector, opts, sources, log, extracted, len
         hs = _attr_start(text, mt_, hs, b0 + 1)
         log.append({"rule": "R14", "where": where, "fn": name, "before": text[hs:he], "after": "(nested item hoisted to top level, extracted separately)"})
         text = text[:hs] + text[he:]
-    for is_re, rule, count, frm, to in opts["subs"]:
+    group_matched = True
+    for si_, (is_re, rule, count, frm, to, is_alt) in enumerate(opts["subs"]):
+        # //@altsub / //@altresub: an alternative spelling of the same construct, tried only when the rule(s) before it
+        # in its group matched nothing (e.g. `for x in &mut *v { f(x) }`  vs  `v.iter_mut().for_each(f)`)
+        if is_alt and group_matched:
+            continue
+        has_alt = si_ + 1 < len(opts["subs"]) and opts["subs"][si_ + 1][5]
+        found_ = len(re.findall(frm, text)) if is_re else text.count(frm)
+        if found_ == 0 and has_alt:
+            group_matched = False
+            continue
+        group_matched = True
         if is_re:
             found = len(re.findall(frm, text))
             if not _count_ok(found, count) and not lenient:
